@@ -505,8 +505,40 @@ func (c *Ctx) initiatorOrder(prop string, p *Proc) {
 				}
 			}
 		}
+		// calls of package helpers that (themselves or in their closures) send commit messages start commits as well
+		for _, ci := range Calls(fn, func(ci ssa.CallInstruction) bool {
+			g := ci.Common().StaticCallee()
+			if g == nil || g == fn || g.Blocks == nil || ci.Common().IsInvoke() || prog.PkgPathOf(g) != pkg {
+				return false
+			}
+			// a callee that sends prepare/execute itself is a driver of its own (judged separately), not a commit helper
+			if len(Calls(g, func(x ssa.CallInstruction) bool { return isSenderCall(x, "Prepare") || isSenderCall(x, "Execute") })) > 0 {
+				return false
+			}
+			for _, gf := range WithClosures(g) {
+				if len(Calls(gf, func(x ssa.CallInstruction) bool { return isSenderCall(x, "Commit") })) > 0 {
+					return true
+				}
+			}
+			return false
+		}) {
+			commitStarts = append(commitStarts, ci.(ssa.Instruction))
+		}
 		if len(commitStarts) == 0 {
 			continue
+		}
+		// a function that only sends commits on behalf of a package caller is a helper of that caller's driver
+		npe := len(Calls(fn, func(ci ssa.CallInstruction) bool { return isSenderCall(ci, "Prepare") || isSenderCall(ci, "Execute") }))
+		if npe == 0 {
+			helper := false
+			for _, cs := range c.staticCallers()[fn] {
+				if cs.Parent() != nil && prog.PkgPathOf(cs.Parent()) == pkg {
+					helper = true
+				}
+			}
+			if helper {
+				continue
+			}
 		}
 		nd++
 		bad := false
